@@ -104,6 +104,38 @@ def oracle(case: dict):
             return None
         finally:
             shutil.rmtree(tmp, ignore_errors=True)
+    if kind == "include-chain":
+        # main -> base -> param, each hop made with include() + dump(); main and base live in different folders, and a file
+        # with param's relative name (as base spells it) also exists next to main: reading main merges the file base names
+        dictIO = native.dictio()
+        tmp = native.scratch_dir("c18c_")
+        try:
+            main, base = tmp / case["main"], tmp / case["base"]
+            param = base.parent / case["param"]
+            bystander = main.parent / case["param"]
+            for q in (main, base, param, bystander):
+                q.parent.mkdir(parents=True, exist_ok=True)
+            try:
+                dictIO.DictWriter.write({"paramC": "from the file base names", "tolerance": 0.001}, param, mode="w")
+                if bystander.resolve() != param.resolve():
+                    dictIO.DictWriter.write({"paramC": "from the bystander", "tolerance": 0.5, "caseOnly": True}, bystander, mode="w")
+                b = dictIO.SDict(base)
+                b.update({"paramB": 7})
+                b.include(dictIO.DictReader.read(param))
+                b.dump()
+                a = dictIO.SDict(main)
+                a.update({"keyA": 1})
+                a.include(dictIO.DictReader.read(base))
+                a.dump()
+                got = native.strip_placeholders(gen.plain(dict(dictIO.DictReader.read(main))), kinds=("BLOCKCOMMENT", "LINECOMMENT", "INCLUDE"))
+            except Exception as e:  # noqa: BLE001
+                return ("include-raises", f"include chain raised {type(e).__name__}: {e}")
+            exp = {"keyA": 1, "paramB": 7, "paramC": "from the file base names", "tolerance": 0.001}
+            if got != exp:
+                return ("include-not-resolved", f"main={case['main']} -> base={case['base']} -> {case['param']} (next to base; a file of that name exists next to main too): read(main) = {got!r}, expected {exp!r}")
+            return None
+        finally:
+            shutil.rmtree(tmp, ignore_errors=True)
     if kind == "include-x":
         # the two files in DIFFERENT formats (native / JSON / Foam): each file is read with the parser its own ending asks for
         dictIO = native.dictio()
@@ -416,6 +448,15 @@ def run(ctx):
         if r:
             ctx.oracle_fail(c, r[0], r[1])
         ctx.count(("i", a, b, c.get("a_in_memory")), da != db, "include:random")
+    # chains of two includes across folders, with an equally named bystander next to the top file
+    for main, base, param in (("proj/case 1/mainDict", "proj/common.d/baseDict", "paramDict"), ("proj/case 1/mainDict", "proj/common.d/baseDict", "sub/paramDict"),
+                              ("proj/mainDict", "proj/lib/baseDict", "paramDict"), ("proj/a/b/mainDict", "proj/baseDict", "a/paramDict"),
+                              ("proj/mainDict", "proj/baseDict", "paramDict")):
+        c = {"kind": "include-chain", "main": main, "base": base, "param": param}
+        r = oracle(c)
+        if r:
+            ctx.oracle_fail(c, r[0], r[1])
+        ctx.count(("ic", main, base, param), True, "include-chain")
     # including and included file in different formats, for every placement
     for name, (a, b) in PLACEMENTS.items():
         for ea, eb in (("", ".json"), (".json", ""), (".json", ".json"), ("", ".foam"), (".foam", ".json")):
